@@ -10,6 +10,7 @@
   Strings are `List Char`; a C `char` with the high bit set is any `Char ≥ 128`
   (`isspace`/`isdigit` are false there in the "C" locale).
 -/
+import Gama.Gen.GkfAutomaton
 namespace Gama.Lit
 
 /-- `isspace` in the "C" locale: space, \t \n \v \f \r -/
@@ -54,11 +55,15 @@ def allDigits : List Char → Bool
   | [] => true
   | c :: cs => isDigit c && allDigits cs
 
-/-- `IsInteger(const String&)`.  NB: a lone sign is accepted (`"+"` ↦ true), as in the C++. -/
+/-- `IsInteger(const String&)`.  NB: in the pinned code a lone sign is accepted (`"+"` ↦ true);
+    whether the guard `if (b == e) return false;` follows the sign is read from the source
+    (`Gkf.intLoneSignRejected`, generated). -/
 def isInteger (s : List Char) : Bool :=
   match trim s with
   | [] => false
-  | t => allDigits (skipSign t)
+  | t =>
+    let r := skipSign t
+    if Gkf.intLoneSignRejected && r.isEmpty then false else allDigits r
 
 /-- the exponent part of `IsFloat`, entered with `b != e`:
       `if (*b != 'e' && *b != 'E') return false; ++b; if (b == e) return false;`
